@@ -194,7 +194,21 @@ func runC02(c *Ctx) error {
 		if i%8 == 7 {
 			opts.MinGates, opts.MaxGates = 80, 160
 		}
+		wide := i%16 == 11
+		if wide {
+			// an evaluator input wider than the OT implementations' internal block sizes
+			// (IKNP chunks of 512 rows, KOS check blocks of 1024): the second and later
+			// blocks of every batched loop run only here
+			ni := []int{1030, 1100, 1290, 1040}[(i/16)%4]
+			opts = GenOpts{MinIn: ni, MaxIn: ni, MinGates: 60, MaxGates: 120, MaxOut: 9, Overwrite: true, TwoParty: true}
+		}
 		circ := GenCircuit(r, opts)
+		if wide {
+			ni := circ.Inputs.Size()
+			a := 3 + (i/16)%5
+			circ.Inputs = circuit.IO{{Name: "a", Type: uintInfo(a)}, {Name: "b", Type: uintInfo(ni - a)}}
+			c.Hist("circuit:wide-evaluator-input")
+		}
 		if i%8 == 5 {
 			cc, err := compileC02(i / 8)
 			if err != nil {
@@ -210,6 +224,12 @@ func runC02(c *Ctx) error {
 		kind := otKinds[i%len(otKinds)]
 		if kind.name == "rsa" && !c.Thorough() && i%16 != 3 {
 			kind = otKinds[(i/4)%3]
+		}
+		if wide {
+			kind = otKinds[(i/16)%3] // CO, COT, COT-malicious in turn (a thousand RSA transfers are too slow)
+			if (i/16)%2 == 0 {
+				kind = otKinds[2]
+			}
 		}
 		x := make([]bool, n0)
 		y := make([]bool, n1)
